@@ -30,30 +30,32 @@ def extract():
     if not table: raise ExtractError("to_error_code: no arms")
     sr = test_mod_cut(strip(read("src/server_request.rs")))
     rb = fn_body(sr, "route")
-    marks = [("version", r"header\.version\s*!=\s*REPE_VERSION"), ("queryFormat", r"QueryFormat::try_from"),
+    # a check that is not found is simply absent from `routeOrder` (the order theorem then fails); a version test
+    # with another operator, a notify test of another shape, another default for unknown query formats are FACTS
+    vt = re.search(r"header\.version\s*(!=|==|>=|<=|>|<)\s*REPE_VERSION", rb)
+    marks = [("version", r"header\.version\s*(?:!=|==|>=|<=|>|<)\s*REPE_VERSION"), ("queryFormat", r"QueryFormat::try_from"),
              ("utf8", r"from_utf8"), ("lookup", r"router\.get\(")]
     pos = []
     for name, rx in marks:
         mm = re.search(rx, rb)
-        if not mm: raise ExtractError(f"route: {name} check not found")
-        pos.append((mm.start(), name))
+        if mm: pos.append((mm.start(), name))
     order = [n for _, n in sorted(pos)]
     # codes used by each reject, by textual position
     rejects = [(mm.start(), mm.group(1)) for mm in re.finditer(r"code:\s*ErrorCode::(\w+)", rb)]
     def code_after(rx):
-        p = re.search(rx, rb).start()
+        mm = re.search(rx, rb)
+        if not mm: return "Ok"
         for q, c in rejects:
-            if q > p: return c
-        raise ExtractError("route: reject code")
+            if q > mm.start(): return c
+        return "Ok"
     route_codes = {"version": code_after(marks[0][1]), "utf8": code_after(marks[2][1]),
                    "rawBinary": code_after(r"QueryFormat::RawBinary\s*=>"), "lookup": code_after(r"None\s*=>")}
     notify_test = re.search(r"let notify\s*=\s*header\.notify\s*==\s*(\d+)\s*;", rb)
-    if not notify_test: raise ExtractError("route: notify test")
     unknown_qf = re.search(r"QueryFormat::try_from\([^)]*\)\.unwrap_or\(QueryFormat::(\w+)\)", rb)
-    if not unknown_qf: raise ExtractError("route: unknown query format default")
     facts = {"codes": {f: disc[k] for k, f in CODE_FIELDS}, "toErrorCode": sorted(table), "routeOrder": order,
-             "routeCodes": {k: disc[v] for k, v in route_codes.items()}, "notifyValue": int(notify_test.group(1)),
-             "unknownQueryFormatIs": unknown_qf.group(1)}
+             "routeCodes": {k: disc[v] for k, v in route_codes.items()}, "notifyValue": int(notify_test.group(1)) if notify_test else 0,
+             "unknownQueryFormatIs": unknown_qf.group(1) if unknown_qf else "?", "versionTestIsNe": bool(vt and vt.group(1) == "!="),
+             "routeRejectSites": len(re.findall(r"RouteOutcome::Reject\s*\{", rb)), "routeDispatchSites": len(re.findall(r"RouteOutcome::Dispatch\s*\{", rb))}
     facts.update(handler_facts(disc, dict(table)))
     facts["serve"] = serve_facts(sr)
     return facts
@@ -206,7 +208,8 @@ def serve_facts(sr):
     f = {}
     dv, do = norm(fn_body(sr, "dispatch_view")), norm(fn_body(sr, "dispatch"))
     for key, body, call in [("view", dv, r"handler\.handle_view\(view, ctx\)"), ("owned", do, r"handler\.handle_with_ctx\(req, ctx\)")]:
-        silent = bool(re.match(r"if notify \{ let _ = " + call + r"; return None; \} Some\(match " + call + r" \{", body))
+        run = r"(?:let _\w* = " + call + r"|_ = " + call + r"|drop\(" + call + r"\)|" + call + r"\.ok\(\));"
+        silent = bool(re.match(r"if notify \{ " + run + r" return None; \} Some\(match " + call + r" \{", body))
         n = len(re.findall(r"handler\.handle\w*\(", body))
         f[key + "NotifySilent"] = silent
         f[key + "HandlerCalls"] = 1 if (silent and n == 2) or n == 1 else n
@@ -220,14 +223,21 @@ def serve_facts(sr):
         if not m: return None
         i = m.end() - 1
         return norm(body[i + 1:match_brace(body, i) - 1])
-    echo_let = r"let echo = crate::message::response_echo_query\(&resp, view\.query\);"
+    helper = r"(?:crate::message::|message::)?response_echo_query\(&resp, view\.query\)"
+    echo_let = r"let (\w+) = " + helper + ";"
+    def echo_name(block):
+        mm = re.search(echo_let, block)
+        return mm.group(1) if mm else None
     tb = some_block(fn_body(srv, "handle_connection"))
-    f["tcpEchoHelper"] = bool(tb and re.search(echo_let, tb) and re.search(r"write_message_streaming\( &mut writer, resp\.header, echo,", tb))
-    f["tcpFlushEach"] = bool(tb and re.fullmatch(echo_let + r" write_message_streaming\(.*\)\?; writer\.flush\(\)\?;", tb))
+    tn = echo_name(tb) if tb else None
+    targ = (re.escape(tn) if tn else helper)            # the helper's result by name, or the call written inline
+    f["tcpEchoHelper"] = bool(tb and re.search(r"write_message_streaming\( ?&mut writer, resp\.header, " + targ + ",", tb))
+    f["tcpFlushEach"] = bool(tb and re.fullmatch(r"(?:" + echo_let + r" )?write_message_streaming\(.*\)\?; writer\.flush\(\)\?;", tb))
     ab = some_block(fn_body(asv, "handle_connection"))
     if ab:
-        args = re.findall(r"write_view_response\(&mut writer, &resp, ([^)]*)\)", ab)
-        f["atcpEchoHelper"] = bool(re.search(echo_let, ab)) and len(args) >= 1 and all(a.strip() == "echo" for a in args)
+        an = echo_name(ab)
+        args = re.findall(r"write_view_response\(&mut writer, &resp, ((?:[^()]|\([^()]*\))*)\)", ab)
+        f["atcpEchoHelper"] = len(args) >= 1 and all((an and a.strip() == an) or re.fullmatch(helper, a.strip()) for a in args)
         ifs = re.findall(r"\bif\b[^{]*\{", ab)
         f["atcpFlushEach"] = len(args) >= 1 and len(re.findall(r"writer\.flush\(\)", ab)) == len(args) and all(norm(x) == "if let Some(dur) = write_timeout {" for x in ifs) \
             and not re.search(r"\.ok\(\)|let _ =", ab)
@@ -279,6 +289,9 @@ def render(f):
          f"def routeLookupCode : Nat := {f['routeCodes']['lookup']}",
          f"def notifyValue : Nat := {f['notifyValue']}",
          f"def unknownQueryFormatIsRawBinary : Bool := {'true' if f['unknownQueryFormatIs'] == 'RawBinary' else 'false'}",
+         f"def versionTestIsNe : Bool := {'true' if f['versionTestIsNe'] else 'false'}",
+         f"def routeRejectSites : Nat := {f['routeRejectSites']}",
+         f"def routeDispatchSites : Nat := {f['routeDispatchSites']}",
          ]
     b = lambda x: "true" if x else "false"
     L.append("def decodeFacts : HKind → Entry → DecodeFacts")
